@@ -59,7 +59,7 @@ def worker_init(ctx, tier):
     global _mon
     strict = set()
     for name in gen.enzyme_names() + ["BsaI", "BsmBI", "BbsI", "BpiI"]:
-        strict.update(gen.generic_classes(name))
+        strict.update(gen.all_harness_classes(name))
     _mon = asmmon.AssembleMonitor(ctx, [asmmon.make_c01_judge(strict)])
     _mon.install()
     ctx._geoms = set()
